@@ -83,6 +83,16 @@ func ruleClose1(c *Ctx) {
 				made := p.madeLocally(f, v)
 				runsOnce, why := p.bodyRunsOnce(f)
 				if made && !inLoop && runsOnce {
+					// a local channel on which another goroutine sends (a reply channel
+					// handed over in a message, or a goroutine started here) may be
+					// closed by its owner only after the reply was received
+					if bad, where := p.replyCloseViolation(f, v, node); bad {
+						c.R.Violate("R-CLOSE1/reply", p.Pos(call), f.Name, construct,
+							"the channel was handed to another goroutine that sends its reply on it ("+where+"), but there is a path from the hand-off to this close on which the reply is not received first: the later reply is a send on a closed channel (panic)", nil)
+						continue
+					} else if where != "" {
+						c.R.Hold("R-CLOSE1/reply", p.Pos(call), f.Name, construct, "reply received on every path from the hand-off ("+where+") to the close", true)
+					}
 					c.R.Hold("R-CLOSE1", p.Pos(call), f.Name, construct, "channel made locally, closed outside any loop; "+why, true)
 					continue
 				}
@@ -873,4 +883,111 @@ func ruleStopClosesBroker(c *Ctx) {
 			c.R.Violate("R-RES/broker", p.Pos(f.Node()), f.Name, "closes the broker", "stopping the gRPC server leaves the broker (its stream and brokered servers) open", path)
 		}
 	}
+}
+
+// replyCloseViolation: v is a local channel of f closed at closeNode (a defer
+// statement means: at function exit). If v is handed to another goroutine that
+// sends on it, every path from the hand-off to the close must receive from v.
+// Returns (violated, description of the hand-off); description is empty when v
+// has no remote sender.
+func (p *Prog) replyCloseViolation(f *Func, v *types.Var, closeNode *Node) (bool, string) {
+	info := f.Pkg.TypesInfo
+	g := p.Graph(f)
+	var handoffs []*Node
+	where := ""
+	// (a) stored in a struct field on which the module sends
+	ast.Inspect(f.Body, func(x ast.Node) bool {
+		kv, ok := x.(*ast.KeyValueExpr)
+		if !ok || identObj(info, kv.Value) != v {
+			return true
+		}
+		kid, ok := kv.Key.(*ast.Ident)
+		if !ok {
+			return true
+		}
+		fld, _ := info.Uses[kid].(*types.Var)
+		if fld == nil || !fld.IsField() {
+			return true
+		}
+		if p.moduleSendsOnField(fld) {
+			if n := g.NodeOf(kv); n != nil {
+				handoffs = append(handoffs, n)
+				where = "stored in " + p.FieldName(fld) + " of a message"
+			}
+		}
+		return true
+	})
+	// (b) a goroutine started here sends on it
+	walkNoLit(f.Body, func(x ast.Node) bool {
+		gs, ok := x.(*ast.GoStmt)
+		if !ok {
+			return true
+		}
+		sends := false
+		ast.Inspect(gs.Call, func(y ast.Node) bool {
+			if ss, ok := y.(*ast.SendStmt); ok && identObj(info, ss.Chan) == v {
+				sends = true
+			}
+			return true
+		})
+		if sends {
+			if n := g.NodeOf(gs); n != nil {
+				handoffs = append(handoffs, n)
+				where = "a goroutine started here sends on it"
+			}
+		}
+		return true
+	})
+	if len(handoffs) == 0 {
+		return false, ""
+	}
+	receives := func(n *Node) bool {
+		if n.Ast == nil {
+			return false
+		}
+		found := false
+		walkNoLit(n.Ast, func(x ast.Node) bool {
+			if u, ok := x.(*ast.UnaryExpr); ok && u.Op == token.ARROW && identObj(info, u.X) == v {
+				found = true
+			}
+			if rs, ok := x.(*ast.RangeStmt); ok && identObj(info, rs.X) == v {
+				found = true
+			}
+			return true
+		})
+		return found
+	}
+	target := g.Exit
+	if closeNode != nil {
+		if _, isDefer := closeNode.Ast.(*ast.DeferStmt); !isDefer {
+			target = closeNode
+		}
+	}
+	for _, h := range handoffs {
+		seen := g.ReachAfter(h, receives, nil)
+		if _, r := seen[target]; r {
+			return true, where
+		}
+	}
+	return false, where
+}
+
+func (p *Prog) moduleSendsOnField(fld *types.Var) bool {
+	for _, fn := range p.Funcs {
+		if fn.Decl == nil {
+			continue
+		}
+		info := fn.Pkg.TypesInfo
+		found := false
+		ast.Inspect(fn.Body, func(x ast.Node) bool {
+			if ss, ok := x.(*ast.SendStmt); ok && SelField(info, ss.Chan) == fld {
+				found = true
+			}
+			return !found
+		})
+		if found {
+			return true
+		}
+	}
+	return false
 }
